@@ -236,6 +236,8 @@ def make_method(m):
     if m.get("grid") is not None:
         kw["grid"] = make_grid(m["grid"])
     cls = m["cls"]
+    if cls == "DirectMethod":
+        return rockit.DirectMethod()
     if cls == "DirectCollocation":
         if "degree" in m:
             kw["degree"] = m["degree"]
@@ -445,7 +447,17 @@ class Actor:
                 return o.solver(op["name"], d)
             return o.solver(op["name"], jcopy(op.get("opts", {})))
         if k == "set_value":
-            return o.set_value(self.env.lookup(op["p"]), make_value(op["v"]))
+            val = make_value(op["v"])
+            if op.get("reuse") and isinstance(val, np.ndarray):
+                # the user keeps one array per parameter, updates it in place and passes the same object again
+                held = self.hidden.setdefault("held_values", {})
+                old = held.get(op["p"])
+                if isinstance(old, np.ndarray) and old.shape == val.shape:
+                    old[...] = val
+                    val = old
+                else:
+                    held[op["p"]] = val
+            return o.set_value(self.env.lookup(op["p"]), val)
         if k == "set_value_cat":
             return o.set_value(ca.vertcat(*[self.syms[p] for p in op["ps"]]), np.array(op["v"], dtype=float))
         if k == "set_initial":
